@@ -190,6 +190,12 @@ func (d *Decoder) DecodeLength() (uint64, error) {
 	if err != nil {
 		return 0, err
 	}
+	// Every element of every length-prefixed sequence, map or blob occupies at least one
+	// byte, so a declared length larger than the remaining input can never be satisfied.
+	// Reject it here, before any caller allocates `length` elements.
+	if length > uint64(d.buf.Len()) {
+		return 0, fmt.Errorf("declared length %d exceeds the %d remaining bytes", length, d.buf.Len())
+	}
 	cLog(Yellow, "Slice Length: %v", length)
 	return length, nil
 }
